@@ -39,7 +39,7 @@ def run(chk):
         "the resume site follows the accounting under the low-water marks; the same wake discipline holds for DataQueue / WebSocketDataQueue."
     )
     chk.not_decided = "conservation of bytes as an equation over all operation sequences; that the low-water test is true whenever the buffer is empty (arithmetic on configured limits)."
-    chk.explanation += " Also decided: every function that inspects the front buffer also reads its consumed-prefix offset."
+    chk.explanation += " Also decided: every function that inspects the front buffer also reads its consumed-prefix offset. After the defect hunt: interrupted line/exact reads push their bytes back; multi-byte separators are searched across block boundaries; the last chunk boundary is kept by the producer; an empty buffer always satisfies the resume test; the shared EMPTY_PAYLOAD keeps no state (known finding F63)."
     sr = repo.cls(MOD, SR)
     # ---- owners ---------------------------------------------------------------------------------------
     for attr, fns in OWN.items():
